@@ -127,7 +127,7 @@ Qed.
 
 Lemma rec_rpl_touches : forall s k q, In q (touches (rec_rpl s (rpl_of k))) -> q = rpl_of k \/ q = k.
 Proof.
-  intros s k q. unfold rec_rpl. rewrite strip4_rpl. destruct (exists_ s k); cbn; tauto.
+  intros s k q. unfold rec_rpl. rewrite strip4_rpl. destruct (exists_ s k); cbn; intuition (subst; auto).
 Qed.
 
 Lemma phase2_safe : forall names s,
@@ -180,7 +180,7 @@ Proof.
         { intros q Q1 Q2. apply apply_frame with (rec_rpl s0 (rpl_of km)); [assumption|].
           intro Hin. apply rec_rpl_touches in Hin. tauto. }
         assert (R : run s0 [rec_rpl s0 (rpl_of km)] = s1) by (cbn; now rewrite Ha0).
-        rewrite R. rewrite IHn; auto.
+        try rewrite R. rewrite IHn; auto.
         - apply Fr0; [intro E; apply Hnin0; left; now rewrite E | intro E; symmetry in E; now apply (key_ne_rpl km k Hkm)].
         - intros n Hn. destruct (H0 n (or_intror Hn)) as (k' & Hk' & -> & [c' Hc']).
           exists k'. split; [assumption|]. split; [reflexivity|]. exists c'. rewrite Fr0; [assumption | |].
